@@ -221,7 +221,7 @@ def pool_tie(ctx, work):
     scripts = []
     for kind in ('base', 'sqliteFile', 'sqliteMemory'):
         for s in FIXED: scripts.append((kind, s))
-        for _ in range(ctx.scale(9, 150)): scripts.append((kind, random_script(rng, 14)))
+        for _ in range(ctx.scale(5, 150)): scripts.append((kind, random_script(rng, 14)))
     outs = ctx.driver('C36', [{'op': 'run', 'kind': k, 'events': s} for k, s in scripts])
     for i, ((kind, script), out) in enumerate(zip(scripts, outs)):
         if 'driver_error' in out:
